@@ -64,6 +64,10 @@ def factor_ob(fkind, mkind, op, uf, batch):
             from .common import inverse_pair_diffs
             dd = inverse_pair_diffs(rs.f["Sigma"], rg.f["Lambda"], "shortcut Sigma * general Lambda: ")
             d += [("Sigma",) + tuple(x) for x in dd[:3]]
+            # log-determinants of the shortcut are those of the precision the general route inverts (same component order)
+            from .common import invariant_diffs
+            for fld, q in invariant_diffs(rs, fields=("ln_det_Sigma", "ln_det_Lambda"), what="shortcut "):
+                d.append((fld, q))
         return d, dict(funcs=funcs_of(I))
     owner = fkind
     return Ob(f"factor/{fkind}/{mkind}/{op}/{batch}/full={int(uf)}", run,
